@@ -222,6 +222,13 @@ def _as_statements(stmts, target, keep_returns):
             return [ast.Expr(value=st.value)] if st.value is not None and _has(st.value, ast.Call) else []
         if isinstance(target, ast.Name) and isinstance(st.value, ast.Name) and st.value.id == target.id:
             return []      # `x = x`
+        if isinstance(target, (ast.Tuple, ast.List)) and isinstance(st.value, (ast.Tuple, ast.List)) and len(target.elts) == len(st.value.elts) and all(isinstance(t_, ast.Name) for t_ in target.elts):
+            # `a, b = (e1, e2)`: component-wise, when no component reads a name another component binds
+            pairs = [(t_, v_) for t_, v_ in zip(target.elts, st.value.elts) if not (isinstance(v_, ast.Name) and v_.id == t_.id)]
+            bound = {t_.id for t_, _ in pairs}
+            clash = any(isinstance(x, ast.Name) and x.id in bound and x.id != t_.id for t_, v_ in pairs for x in ast.walk(v_))
+            if not clash:
+                return [ast.Assign(targets=[ast.Name(id=t_.id, ctx=ast.Store())], value=v_) for t_, v_ in pairs]
         return [ast.Assign(targets=[_fcopy(target)], value=st.value if st.value is not None else ast.Constant(value=None))]
     if isinstance(st, ast.Raise):
         return [st]
